@@ -133,7 +133,6 @@ func runHistory(h *history) ([]opResult, error) {
 	if err != nil {
 		return nil, err
 	}
-	defer p.close()
 	res := make([]opResult, len(h.ops))
 	var wg sync.WaitGroup
 	start := time.Now()
@@ -200,6 +199,14 @@ func runHistory(h *history) ([]opResult, error) {
 		}(i)
 	}
 	wg.Wait()
+	// (closing the pair is bounded too: a broker whose lock is held for ever must cost this history, not the whole run)
+	if _, hung, _ := withTimeout(15*time.Second, func() error { p.close(); return nil }); hung {
+		for i := range res {
+			if res[i].res == "ok" || res[i].res == "err" {
+				res[i].res = "hang" // the broker could not even be closed: report the history, with its ops, as hanging
+			}
+		}
+	}
 	return res, nil
 }
 
